@@ -617,12 +617,20 @@ func nodeAnnouncedOnce(c *Ctx, r *Report, rule string) {
 				return
 			}
 			// the notifier, by role: a module function that sends on channels
+			// (directly, or through one more helper: announce = notify + log)
 			sends := false
-			eachInstr(cl.Call.StaticCallee(), func(j ssa.Instruction) {
-				if _, isS := j.(*ssa.Send); isS {
-					sends = true
-				}
-			})
+			var look func(g *ssa.Function, d int)
+			look = func(g *ssa.Function, d int) {
+				eachInstr(g, func(j ssa.Instruction) {
+					if _, isS := j.(*ssa.Send); isS {
+						sends = true
+					}
+					if c2, isC := j.(*ssa.Call); isC && d < 2 && c2.Call.StaticCallee() != nil && modLocal(c2.Call.StaticCallee()) {
+						look(c2.Call.StaticCallee(), d+1)
+					}
+				})
+			}
+			look(cl.Call.StaticCallee(), 0)
 			if !sends {
 				return
 			}
